@@ -30,7 +30,7 @@ M0(tr) == [cfg |-> tr.cfg, r |-> << >>, lastSid |-> 0,
            cliIW |-> 65535, rGrantC |-> 65535, rSentC |-> 0,
            setSent |-> 0, ackRecv |-> 0, pushAdvertised |-> -1,
            goaway |-> FALSE, gaLast |-> 0, gaCode |-> 0, gaSettled |-> FALSE,
-           peerGone |-> FALSE, userClosed |-> FALSE, connClosed |-> FALSE, connErr |-> FALSE, badSettings |-> FALSE,
+           openBlockES |-> FALSE, openBlockSid |-> 0, peerGone |-> FALSE, userClosed |-> FALSE, connClosed |-> FALSE, connErr |-> FALSE, badSettings |-> FALSE,
            bad |-> {}]
 
 Rq(mm, i) == IF i \in DOMAIN mm.r THEN mm.r[i] ELSE R0
@@ -60,16 +60,13 @@ OnCall(mm, e) ==
   PutR(mm, e.req, [R0 EXCEPT !.called = TRUE,
                              !.given = [method |-> e.method, path |-> e.path, host |-> e.host, fields |-> e.fields, kind |-> e.bodykind, n |-> e.n]])
 
-(* recv: the server peer received frame f from the client; e.req = request owning the stream (0: none) *)
-OnRecv(mm, e) ==
-  LET f == e.f
-      i == e.req
-      x == Rq(mm, i)
-  IN
-  IF f.ty = T_HEADERS THEN
+(* A request header block is complete (END_HEADERS on HEADERS, or on the CONTINUATION that ends it):      *)
+(* f carries the field list x/net decoded, e.req the request it belongs to, es whether END_STREAM was on   *)
+(* the HEADERS frame.                                                                                      *)
+ReqBlock(mm, e, f, i, x, es) ==
      LET g == x.given
          isNew == i # 0 /\ x.hdrSeen = 0
-         x1 == [x EXCEPT !.sid = f.sid, !.hdrSeen = @ + 1, !.es = @ + (IF f.es THEN 1 ELSE 0), !.grant = mm.srvIW, !.rGrant = mm.cliIW]
+         x1 == [x EXCEPT !.sid = f.sid, !.hdrSeen = @ + 1, !.es = @ + (IF es THEN 1 ELSE 0), !.grant = mm.srvIW, !.rGrant = mm.cliIW]
          m1 == IF i # 0 THEN [PutR(mm, i, x1) EXCEPT !.lastSid = IF f.sid > @ THEN f.sid ELSE @] ELSE mm
          c1 == FlagIf(m1, f.hbad, "C02:request-block-undecodable")
          c2 == FlagIf(c1, i = 0 /\ ~f.hbad, "C02:request-without-caller")
@@ -83,16 +80,30 @@ OnRecv(mm, e) ==
          c9 == FlagIf(c8, isNew /\ ~f.hbad /\ ~WellFormedRequest(f.fields, 0, <<>>) /\ Count(f.fields, B_contentlength) = 0, "C02:request-malformed-on-the-wire")
          c10 == FlagIf(c9, mm.gaSettled, "C11:new-stream-after-goaway")
          c11 == FlagIf(c10, f.len > mm.srvMFS, "C18:headers-frame-over-max-frame-size")
-         c12 == FlagIf(c11, ~f.eh, "C02:request-headers-without-end-headers")
+         c12 == c11
          c13 == FlagIf(c12, isNew /\ mm.srvMCS >= 0 /\ Cardinality(OpenStreams(m1)) > mm.srvMCS, "C18:max-concurrent-streams-exceeded")
-         c14 == FlagIf(c13, isNew /\ f.es /\ g.kind # "none" /\ g.n > 0, "C02:request-body-dropped")
+         c14 == FlagIf(c13, isNew /\ es /\ g.kind # "none" /\ g.n > 0, "C02:request-body-dropped")
      IN c14
+
+(* recv: the server peer received frame f from the client; e.req = request owning the stream (0: none) *)
+OnRecv(mm, e) ==
+  LET f == e.f
+      i == e.req
+      x == Rq(mm, i)
+  IN
+  IF f.ty = T_HEADERS THEN
+     (IF f.eh THEN ReqBlock(mm, e, f, i, x, f.es)
+      ELSE \* the block continues: remember END_STREAM of the HEADERS frame, judge the block when it ends
+           FlagIf([mm EXCEPT !.openBlockES = f.es, !.openBlockSid = f.sid], f.len > mm.srvMFS, "C18:headers-frame-over-max-frame-size"))
+  ELSE IF f.ty = T_CONT THEN
+     LET c1 == FlagIf(mm, f.len > mm.srvMFS, "C18:continuation-frame-over-max-frame-size")
+     IN IF f.eh /\ f.sid = mm.openBlockSid THEN ReqBlock([c1 EXCEPT !.openBlockSid = 0], e, f, i, x, mm.openBlockES) ELSE c1
   ELSE IF f.ty = T_DATA THEN
-     LET x1 == [x EXCEPT !.body = @ + f.dlen, !.bodyok = @ /\ f.pat, !.es = @ + (IF f.es THEN 1 ELSE 0), !.sent = @ + f.len]
-         m1 == [(IF i # 0 THEN PutR(mm, i, x1) ELSE mm) EXCEPT !.sentC = @ + f.len]
+     LET x1 == [x EXCEPT !.body = @ + f.dlen, !.bodyok = @ /\ f.pat, !.es = @ + (IF f.es THEN 1 ELSE 0), !.grant = @ - f.len]
+         m1 == [(IF i # 0 THEN PutR(mm, i, x1) ELSE mm) EXCEPT !.grantC = @ - f.len]
          c1 == FlagIf(m1, i = 0, "C02:data-on-stream-without-caller")
-         c2 == FlagIf(c1, f.len > 0 /\ i # 0 /\ x1.sent > x1.grant, "C07:stream-window-exceeded")
-         c3 == FlagIf(c2, f.len > 0 /\ m1.sentC > m1.grantC, "C07:conn-window-exceeded")
+         c2 == FlagIf(c1, f.len > 0 /\ i # 0 /\ x1.grant < 0, "C07:stream-window-exceeded")
+         c3 == FlagIf(c2, f.len > 0 /\ m1.grantC < 0, "C07:conn-window-exceeded")
          c4 == FlagIf(c3, f.len > mm.srvMFS, "C07:data-frame-over-max-frame-size")
          c5 == FlagIf(c4, i # 0 /\ x.es >= 1, "C07:data-after-end-stream")
          c6 == FlagIf(c5, i # 0 /\ ~f.pat, "C02:request-body-bytes-differ")
@@ -111,8 +122,8 @@ OnRecv(mm, e) ==
         IN [c2 EXCEPT !.rGrantC = IF Overflows(mm.rGrantC - mm.rSentC, f.inc) THEN @ ELSE @ + f.inc]
      ELSE IF i # 0 THEN
         LET c1 == FlagIf(mm, f.inc = 0, "C14:zero-increment")
-            c2 == FlagIf(c1, Overflows(x.rGrant - x.rbody, f.inc), "C14:window-above-max")
-        IN PutR(c2, i, [x EXCEPT !.rGrant = IF Overflows(x.rGrant - x.rbody, f.inc) THEN @ ELSE @ + f.inc])
+            c2 == FlagIf(c1, Overflows(x.rGrant, f.inc), "C14:window-above-max")
+        IN PutR(c2, i, [x EXCEPT !.rGrant = IF Overflows(x.rGrant, f.inc) THEN @ ELSE @ + f.inc])
      ELSE mm
   ELSE IF f.ty = T_GOAWAY THEN [mm EXCEPT !.connErr = @ \/ f.code # E_NO]
   ELSE mm
@@ -132,6 +143,7 @@ OnSend(mm, e) ==
           IN IF f.iw >= 0 /\ f.sbad = 0
              THEN [m1 EXCEPT !.srvIW = f.iw,
                              !.r = [k \in DOMAIN m1.r |-> IF m1.r[k].sid # 0 /\ m1.r[k].es = 0
+                                                             /\ ~(f.iw > mm.srvIW /\ m1.r[k].grant > 0 /\ f.iw - mm.srvIW > MaxWin - m1.r[k].grant)
                                                           THEN [m1.r[k] EXCEPT !.grant = @ + (f.iw - mm.srvIW)] ELSE m1.r[k]]]
              ELSE m1
   ELSE IF f.ty = T_WU THEN
@@ -152,7 +164,7 @@ OnSend(mm, e) ==
      IN PutR(mm, i, x1)
   ELSE IF f.ty = T_CONT THEN PutR(mm, i, [x EXCEPT !.rblkOpen = ~f.eh, !.rBad = @ \/ f.hbad])
   ELSE IF f.ty = T_DATA THEN
-     [PutR(mm, i, [x EXCEPT !.rbody = @ + f.dlen, !.rES = @ \/ f.es, !.rBad = @ \/ x.rHdrs = 0 \/ x.rES]) EXCEPT !.rSentC = @ + f.len]
+     [PutR(mm, i, [x EXCEPT !.rbody = @ + f.dlen, !.rGrant = @ - f.len, !.rES = @ \/ f.es, !.rBad = @ \/ x.rHdrs = 0 \/ x.rES]) EXCEPT !.rGrantC = @ - f.len]
   ELSE IF f.ty = T_RST THEN PutR(mm, i, [x EXCEPT !.rRst = TRUE, !.rRstCode = f.code])
   ELSE mm
 
@@ -174,7 +186,11 @@ OnResolve(mm, e) ==
       c10 == FlagIf(c9, ~e.ok /\ complete /\ ~x.rBad /\ ~x.rRst /\ ~x.canceled /\ ~mm.userClosed /\ ~mm.peerGone /\ ~mm.connErr /\ ~mm.badSettings
                         /\ (~mm.goaway \/ x.sid <= mm.gaLast) /\ e.errclass \notin {"connclosed"},
                     "C20:well-formed-response-rejected " \o e.errclass)
-  IN c10
+      \* retried (or reported retryable) only when the server cannot have processed the request: its HEADERS never
+      \* reached the wire, or the server disclaimed the stream (GOAWAY above last-stream-id, REFUSED_STREAM)
+      disclaimed == x.sid = 0 \/ x.hdrSeen = 0 \/ (mm.goaway /\ x.sid > mm.gaLast) \/ (x.rRst /\ x.rRstCode = E_REFUSED)
+      c11 == FlagIf(c10, ~e.ok /\ e.retryable /\ ~disclaimed, "C11:request-the-server-may-have-processed-called-retryable " \o e.errclass)
+  IN c11
 
 -----------------------------------------------------------------------------
 OnQ(mm, e) ==
@@ -185,7 +201,7 @@ OnQ(mm, e) ==
       noEnd == {i \in DOMAIN mm.r : LET x == mm.r[i] IN
                      x.sid # 0 /\ x.es = 0 /\ ~x.rstByClient /\ ~x.rRst /\ ~x.canceled /\ x.res = 0 /\ x.body >= x.given.n}
       starved == {i \in DOMAIN mm.r : LET x == mm.r[i] IN
-                     x.sid # 0 /\ x.rHdrs >= 1 /\ ~x.rES /\ ~x.rRst /\ ~x.rstByClient /\ x.res = 0 /\ x.rGrant - x.rbody <= 0}
+                     x.sid # 0 /\ x.rHdrs >= 1 /\ ~x.rES /\ ~x.rRst /\ ~x.rstByClient /\ x.res = 0 /\ x.rGrant <= 0}
       aboveLast == {i \in DOMAIN mm.r : LET x == mm.r[i] IN mm.goaway /\ x.sid # 0 /\ x.sid > mm.gaLast /\ x.res = 0 /\ ~x.canceled}
       c1 == FlagIf(mm, live /\ ~mm.goaway /\ stalled # {}, "C07:request-body-stalled-with-open-windows")
       c2 == FlagIf(c1, live /\ noEnd # {}, "C07:request-never-ended")
@@ -218,6 +234,7 @@ Step(mm, e) ==
     [] e.k = "connclosed" -> [mm EXCEPT !.connClosed = TRUE]
     [] e.k = "end" -> OnEnd(mm, e)
     [] e.k = "runaway" -> Flag(mm, "C07:runaway-output")
+    [] e.k = "peerproto" -> Flag(mm, "C14:zero-increment (frame rejected by the peer's framer, code=" \o ToString(e.code) \o ")")
     [] e.k = "qtimeout" -> Flag(mm, "X:quiescence-timeout")
     [] e.k = "driverpanic" -> Flag(mm, "X:driver-panic")
     [] e.k = "handshakefail" -> Flag(mm, "X:handshake-failed")
